@@ -205,7 +205,8 @@ class SimSolver(pulp.LpSolver):
         if loose is not None:
             chosen = loose
             events.fired("api.ok_within_requested_gap")
-        if env.stops_at_requested_limit(getattr(self, "timeLimit", None), fault.get("tie", 0), info):
+        if env.stops_at_requested_limit(getattr(self, "timeLimit", None) or opts.get("timeLimit") or opts.get("maxNodes"),
+                                        fault.get("tie", 0), info):
             inc = zero_one.feasible_nonoptimal(model, result, fault.get("tie", 0))
             if inc is not None:
                 for v in variables:
@@ -328,6 +329,16 @@ def _cbc_sol_lines(model, assignment, star=False):
     return lines
 
 
+def _cbc_limit_option(argv):
+    """A work limit on a CBC command line: -sec[onds], -maxN[odes], -maxS[olutions], -maxIt[erations] <n>."""
+    for k, tok in enumerate(argv[:-1]):
+        name = tok.lstrip("-").lower()
+        if tok.startswith("-") and (name.startswith("sec") or name.startswith("maxn") or name.startswith("maxs")
+                                    or name.startswith("maxit")):
+            return argv[k + 1]
+    return None
+
+
 def _cbc_gap_options(argv):
     """Stopping tolerances on a CBC command line: -ratio[Gap] <fraction>, -allow[ableGap] <absolute>."""
     rel = ab = None
@@ -396,8 +407,8 @@ class FakeCbcProc:
             chosen, value = zeros, 0
         wrong = {v: 1 - chosen[v] for v in model.names}
         delivered = False
-        if kind == "ok" and result["status"] == "optimal" and "-sec" in argv and env.stops_at_requested_limit(
-                argv[argv.index("-sec") + 1] if argv.index("-sec") + 1 < len(argv) else None, fault.get("tie", 0), info):
+        if kind == "ok" and result["status"] == "optimal" and env.stops_at_requested_limit(
+                _cbc_limit_option(argv), fault.get("tie", 0), info):
             inc = zero_one.feasible_nonoptimal(model, result, fault.get("tie", 0))
             if inc is not None:
                 head = "Stopped on time - objective value %.8f\n" % float(model.evaluate(inc))
@@ -535,7 +546,9 @@ class FakeHighsProc:
         write_solution = None
         rows_marker = True
         cli0 = dict(a[2:].split("=", 1) for a in argv if a.startswith("--") and "=" in a)
-        limit = cli0.get("time_limit", opts.get("time_limit"))
+        limit = None
+        for key in ("time_limit", "mip_max_nodes", "mip_max_leaves", "mip_max_improving_sols", "mip_max_stall_nodes"):
+            limit = limit or cli0.get(key, opts.get(key))
         if kind == "ok" and chosen is not None and env.stops_at_requested_limit(limit, fault.get("tie", 0), info) and \
                 zero_one.feasible_nonoptimal(model, result, fault.get("tie", 0)) is not None:
             kind = "timelimit_feasible"
